@@ -26,7 +26,12 @@ def parseLevel (s : String) : Option (LogicKind × Nat) :=
   | _ => none
 
 def parseSpec (s : String) : Option (List (LogicKind × Nat)) :=
-  (s.splitOn ",").mapM parseLevel
+  ((s.replace "+" ",").splitOn ",").mapM parseLevel
+
+/-- "proper" nesting (levels separated by '+'): the outer macro is built with the inner macro's
+    own `params()`; with ',' every level gets the BASE params, as the repository's tests do. -/
+def isProper (s : String) : Bool := s.contains '+'
+
 
 def parseSlot (s : String) : Option Slot :=
   match s.splitOn "," with
@@ -67,12 +72,14 @@ def mkLevel {σ : Type} (inner : σ) (params : Nat × Nat) (lv : LogicKind × Na
 /-- run `f` on a freshly built macro object of the given chain (innermost first, depth 1 or 2);
     the callback receives the `GetFn` and the initial state. -/
 def withChain {α : Type} (p : Prog) (params : Nat × Nat) (fixF3 : Bool)
-    (spec : List (LogicKind × Nat))
+    (spec : List (LogicKind × Nat)) (proper : Bool := false)
     (f : {σ : Type} → GetFn σ → σ → α) : Option α :=
   match spec with
   | [l1] => some (f (macroGet compGet fixF3) (mkLevel p params l1))
   | [l1, l2] =>
-    some (f (macroGet (macroGet compGet fixF3) fixF3) (mkLevel (mkLevel p params l1) params l2))
+    let inner := mkLevel p params l1
+    let oparams := if proper then inner.logic.params.params else params
+    some (f (macroGet (macroGet compGet fixF3) fixF3) (mkLevel inner oparams l2))
   | _ => none
 
 def answersOf {σ : Type} (slots : List Slot) (get : GetFn σ) (st : σ) : Res (List (Option Instr)) :=
@@ -94,7 +101,7 @@ def doMq (fix : Bool) (st co spec slots text : String) : String :=
   match parseProg text, st.toNat?, co.toNat?, parseSpec spec, parseSlots slots with
   | none, _, _, _, _ => "PANIC"
   | some p, some s, some c, some sp, some sl =>
-    match withChain p (s, c) fix sp (fun get m => answersOf sl get m) with
+    match withChain p (s, c) fix sp (proper := isProper spec) (fun get m => answersOf sl get m) with
     | none => "BAD-ARGS"
     | some (.error e) => showErr e
     | some (.ok as) => showAnswers as
@@ -106,16 +113,16 @@ def doMq2 (fix : Bool) (st co spec slotsA slotsB text : String) : String :=
   | some p, some s, some c, some sp, some sa, some sb =>
     -- two objects never share state: the interleaving of the real run is immaterial here,
     -- except that a panic of either one makes the whole line PANIC
-    match withChain p (s, c) fix sp (fun get m => answersOf sa get m),
-          withChain p (s, c) fix sp (fun get m => answersOf sb get m) with
+    match withChain p (s, c) fix sp (proper := isProper spec) (fun get m => answersOf sa get m),
+          withChain p (s, c) fix sp (proper := isProper spec) (fun get m => answersOf sb get m) with
     | some (.ok a), some (.ok b) => showAnswers a ++ " # " ++ showAnswers b
     | some (.error e), some (.ok _) => showErr e
     | some (.ok _), some (.error e) => showErr e
     | some (.error ea), some (.error eb) =>
       -- the first failing query in the interleaved order A1,B1,A2,B2,... decides
-      let ia := match withChain p (s, c) fix sp (fun get m => firstErr sa get m 0) with
+      let ia := match withChain p (s, c) fix sp (proper := isProper spec) (fun get m => firstErr sa get m 0) with
         | some i => i | none => 0
-      let ib := match withChain p (s, c) fix sp (fun get m => firstErr sb get m 0) with
+      let ib := match withChain p (s, c) fix sp (proper := isProper spec) (fun get m => firstErr sb get m 0) with
         | some i => i | none => 0
       if ia ≤ ib then showErr ea else showErr eb
     | _, _ => "BAD-ARGS"
@@ -133,17 +140,33 @@ def doMrun (fix : Bool) (st co spec n text : String) : String :=
   match parseProg text, st.toNat?, co.toNat?, parseSpec spec, n.toNat? with
   | none, _, _, _, _ => "PANIC"
   | some p, some s, some c, some sp, some k =>
-    match withChain p (s, c) fix sp (fun get m => runOf k get m) with
+    match withChain p (s, c) fix sp (proper := isProper spec) (fun get m => runOf k get m) with
     | none => "BAD-ARGS"
     | some r => showRun r
   | _, _, _, _, _ => "BAD-ARGS"
+
+/-- params of the macro built by a chain (OUTERMOST first) under proper nesting -/
+def chainParams (params : Nat × Nat) : List (LogicKind × Nat) → Nat × Nat
+  | [] => params
+  | (kind, cells) :: inner =>
+    let ip := chainParams params inner
+    (⟨kind, cells, ip.1, ip.2⟩ : LogicParams).params
+
+/-- `pureChain` with proper nesting: each level is built with the params of the level below -/
+def pureChainProper (p : Prog) (params : Nat × Nat) (fixF3 : Bool) :
+    List (LogicKind × Nat) → Slot → Res (Option Instr)
+  | [], slot => .ok (p.get slot)
+  | (kind, cells) :: inner, slot =>
+    let ip := chainParams params inner
+    pureInstr (fun s => pureChainProper p params fixF3 inner s) ⟨kind, cells, ip.1, ip.2⟩ fixF3 slot
 
 def doMpure (fix : Bool) (st co spec slots text : String) : String :=
   match parseProg text, st.toNat?, co.toNat?, parseSpec spec, parseSlots slots with
   | none, _, _, _, _ => "PANIC"
   | some p, some s, some c, some sp, some sl =>
     ";".intercalate (sl.map fun slot =>
-      match pureChain p (s, c) fix sp.reverse slot with
+      match (if isProper spec then pureChainProper p (s, c) fix sp.reverse slot
+             else pureChain p (s, c) fix sp.reverse slot) with
       | .error e => showErr e
       | .ok a => showAnswer a)
   | _, _, _, _, _ => "BAD-ARGS"
